@@ -20,6 +20,12 @@ def gen_traces(args):
         cls, axis, family, needs_y = H.CLASSES[name]
         kind = H.KINDS[int(rng.integers(len(H.KINDS)))]
         n_s, m_s = int(rng.integers(3, 9)), int(rng.integers(3, 9))
+        # many items and a fraction whose product with the item count is a hair below an integer in double precision
+        # (50 x 0.58 = 28.999999999999996, 55 x 3/11, 75 x 11/15): the size implied by the fraction is the floor of the exact value
+        hair = None
+        if rng.random() < 0.05:
+            Nh, hair = [(50, 0.58), (55, 3 / 11), (55, 6 / 11), (75, 11 / 15)][int(rng.integers(4))]
+            n_s, m_s = (3, Nh) if axis == 1 else (Nh, 3)
         X = H.lattice(rng, n_s, m_s, int(rng.integers(2, 7)), kind)
         N = X.shape[axis]
         with_y = needs_y or rng.random() < 0.4
@@ -63,7 +69,7 @@ def gen_traces(args):
                 kw["mixing"] = int(rng.integers(0, 9)) / 8
         # threshold
         thr, thr_type = None, "absolute"
-        r = rng.random()
+        r = rng.random() if hair is None else 1.0
         if r < 0.25:
             thr_type = "absolute"
             if exact:
@@ -94,6 +100,8 @@ def gen_traces(args):
         rec = H.Recorder(obj, name, (X.astype(float) * scale).astype(xdt), None if y is None else y.astype(float) * scale, unit / (scale * scale), exact)
         # chain of fits
         def pick(lo):
+            if hair is not None:
+                return hair
             f = int(rng.integers(3))
             if f == 0 and N // 2 >= max(lo, 1):
                 return None
